@@ -34,6 +34,7 @@ pub fn profile(prop: &str) -> Option<Profile> {
         max_usks: 6,
         max_encs: 8,
         random_hints: false,
+        edited_initial_structure: false,
     };
     Some(match prop {
         // static structure, many policies, the full key × right table
@@ -48,6 +49,7 @@ pub fn profile(prop: &str) -> Option<Profile> {
             max_usks: 8,
             max_encs: 400,
             random_hints: true,
+            edited_initial_structure: true,
             ..base
         },
         "C03" => Profile {
@@ -116,7 +118,7 @@ pub fn profile(prop: &str) -> Option<Profile> {
             prop: "C11",
             name: "hybridization",
             ops: (20, 35),
-            w: Weights { add_attr: 2, update: 2, rekey: 5, keygen: 5, refresh: 5, encaps: 12, roundtrip: 4, recaps: 1, matrix: 2, ..z },
+            w: Weights { add_attr: 2, disable: 2, update: 3, rekey: 6, prune: 1, keygen: 5, refresh: 5, encaps: 12, roundtrip: 4, recaps: 1, matrix: 2, ..z },
             random_hints: true,
             omega_targets: true,
             max_encs: 10,
